@@ -297,6 +297,34 @@ func RunWorker[P any](t *testing.T, cfg Config, eng *Engine[P]) {
 		return res
 	}
 	switch cfg.Mode {
+	case "genplan":
+		// write the plan of run VERIF_RUNIDX as a replay file (debugging aid)
+		wseed := DeriveSeed(cfg.Seed, propNum(eng.Property), uint64(cfg.Worker))
+		i := envInt("VERIF_RUNIDX", 0)
+		plan := eng.Gen(NewRng(DeriveSeed(wseed, uint64(i))))
+		pb, _ := json.Marshal(plan)
+		rp := Replay{Property: eng.Property, Engine: eng.Name, VerifSeed: cfg.Seed, Worker: cfg.Worker, Run: i, Plan: pb}
+		b, _ := json.MarshalIndent(rp, "", " ")
+		os.WriteFile(cfg.Out, b, 0o644)
+		return
+	case "stress":
+		// execute one plan many times in this process and report every distinct trace
+		b, _ := os.ReadFile(cfg.ReplayPath)
+		var rp Replay
+		json.Unmarshal(b, &rp)
+		p := new(P)
+		json.Unmarshal(rp.Plan, p)
+		seen := map[uint64]int{}
+		n := envInt("VERIF_RUNS", 1000)
+		for i := 0; i < n; i++ {
+			res := exec(p, true)
+			seen[res.TraceHash]++
+			if seen[res.TraceHash] == 1 {
+				fmt.Printf("---- new trace %016x at iteration %d\n%s\n", res.TraceHash, i, strings.Join(res.Trace, "\n"))
+			}
+		}
+		fmt.Printf("distinct traces: %v\n", seen)
+		return
 	case "replay", "trace":
 		replayMode(cfg, eng, exec, known)
 		return
@@ -342,6 +370,11 @@ func RunWorker[P any](t *testing.T, cfg Config, eng *Engine[P]) {
 	stop := make(chan os.Signal, 1)
 	signal.Notify(stop, syscall.SIGTERM, syscall.SIGINT)
 
+	var hashLog *os.File
+	if hl := os.Getenv("VERIF_HASHLOG"); hl != "" {
+		hashLog, _ = os.Create(hl)
+		defer hashLog.Close()
+	}
 	for i := 0; i < cfg.MaxRuns; i++ {
 		if i%16 == 0 && time.Since(start).Seconds() > cfg.MaxSecs {
 			break
@@ -357,6 +390,9 @@ func RunWorker[P any](t *testing.T, cfg Config, eng *Engine[P]) {
 		plan := eng.Gen(NewRng(pseed))
 		res := exec(plan, false)
 		st.Runs++
+		if hashLog != nil {
+			fmt.Fprintf(hashLog, "%d %016x %016x %d\n", i, res.TraceHash, res.SchedHash, len(res.Violations))
+		}
 		st.SimNs += res.SimNs
 		st.Steps += int64(res.Steps)
 		st.Ops += int64(res.Ops)
